@@ -1097,6 +1097,11 @@ func trExpr(e ast.Expr, en env) val {
 		if m.kd.k != "map" {
 			fail(v.Pos(), "index of %s", m.kd)
 		}
+		if m.kd.s == "Nat" {
+			// a map of counters (map[uint64]uint64): a missing key reads as 0
+			k := trExpr(v.Index, en)
+			return val{lean: "((Map.get? " + atom(m.lean) + " " + atom(k.lean) + ").getD 0)", kd: kNat}
+		}
 		k := trExpr(v.Index, en)
 		mapEntryExprs[render(v)] = v
 		return val{lean: "(Map.get? " + atom(m.lean) + " " + atom(k.lean) + ")", kd: kPtr(m.kd.s), path: render(v)}
@@ -3734,6 +3739,24 @@ func trStmts(list []ast.Stmt, en env, k cont) string {
 		}
 		return trRange(v, en, next)
 	case *ast.IncDecStmt:
+		if ix, ok := v.X.(*ast.IndexExpr); ok {
+			r := render(ix.X)
+			if m, ok := en.vars[r]; ok && m.kd.k == "map" && m.kd.s == "Nat" && cur != nil && cur.isState(r) {
+				// m[k]++ / m[k]-- on a map of uint64 counters: unsigned 64-bit arithmetic (wraps)
+				k := trExpr(ix.Index, en)
+				old := "((Map.get? " + atom(m.lean) + " " + atom(k.lean) + ").getD 0)"
+				op := "incU64"
+				if v.Tok == token.DEC {
+					op = "decU64"
+				}
+				n := fresh(lastName(r))
+				e1 := absorb(en).clone()
+				pendingLets = append(pendingLets, fmt.Sprintf("let %s := Map.insert %s %s (%s %s)", n, atom(m.lean), atom(k.lean), op, old))
+				e1.vars[r] = val{lean: n, kd: m.kd, path: m.path}
+				lets := takeLets()
+				return wrapLets(lets, next(e1))
+			}
+		}
 		if v.Tok != token.INC {
 			fail(v.Pos(), "decrement")
 		}
@@ -3969,6 +3992,10 @@ func trRetVal(e ast.Expr, want string, en env) string {
 			return "none"
 		}
 		x := trExpr(e, en)
+		if want == "ptr:String" && x.kd.k == "str" {
+			// a holder represented by its name: the pointer is not nil
+			return "(some " + atom(x.lean) + ")"
+		}
 		if x.kd.k != "ptr" || x.kd.s != strings.TrimPrefix(want, "ptr:") {
 			fail(e.Pos(), "returned value of kind %s, %s expected", x.kd, want)
 		}
